@@ -426,7 +426,7 @@ func (p rpmPkg) canonicalTruth() Sx {
 	return p.truth(t)
 }
 
-func randText(r *Rng, alphabet string, min, max int) string {
+func c19_randText(r *Rng, alphabet string, min, max int) string {
 	n := min + r.Intn(max-min+1)
 	var sb strings.Builder
 	for i := 0; i < n; i++ {
@@ -450,9 +450,9 @@ func randIdent(r *Rng) string {
 		}
 		return string(b)
 	case 2:
-		return randText(r, idAlphabet+" \t\n:=()%", 1, 40)
+		return c19_randText(r, idAlphabet+" \t\n:=()%", 1, 40)
 	default:
-		return randText(r, idAlphabet, 1, 24)
+		return c19_randText(r, idAlphabet, 1, 24)
 	}
 }
 
